@@ -218,12 +218,12 @@ def build_real(case):
         assert not stack
         phase = cb.as_execution_phase(ph["next"])
         if case.get("raw_guards"):
-            phase = inline_guards(phase)
+            phase = inline_guards(phase, case["raw_guards"])
         phases.append(phase)
     return DAGCode.from_phases_list(phases, case["initial"])
 
 
-def inline_guards(phase):
+def inline_guards(phase, case_mode=True):
     """the same phase as a hand-written method description: every `<cond>` flag is replaced by the expression it
     was assigned (the statements carry the comparisons themselves as guards, which the statement language allows and
     verify_code accepts), the flag assignments are dropped, and the statements are chained by dependency edges in
@@ -243,6 +243,11 @@ def inline_guards(phase):
         if type(st).__name__ == "Assign" and st.assignee.startswith("<cond>") and not st.loops:
             flags[st.assignee] = substitute(st.expression, {Variable(n): e for n, e in flags.items()})
             continue
+        if case_mode == "distinct" and not isinstance(cond, bool):
+            # the same guard, spelt differently for every statement, so that simplify_ast finds nothing to merge
+            # (used to confirm the open finding merged_guard_reevaluated: the difference must then disappear)
+            from pymbolic.primitives import Comparison, LogicalAnd
+            cond = LogicalAnd((cond, Comparison(len(kept), "==", len(kept))))
         kept.append(st.copy(condition=cond))
     out = []
     for k, st in enumerate(kept):
@@ -314,6 +319,8 @@ def features(case):
             f.add("notnot")
         if or_under_and(e):
             f.add("or_under_and")
+    if case.get("raw_guards"):
+        f.add("raw_guards")
     for ph in case["phases"]:
         depth = 0
         for c in ph["prog"]:
@@ -730,10 +737,20 @@ def guard_rewritten_under_itself(case):
     return False
 
 
+def agrees_unmerged(case):
+    """the same hand-written program with every guard spelt differently (nothing for simplify_ast to merge): do
+    interpreter and compiled stepper agree then?  (one extra gfortran run per failing candidate)"""
+    d = dict(strip(case), raw_guards="distinct")
+    try:
+        return oracle(d, run_case(d)) is None
+    except Exception:  # noqa: BLE001
+        return False
+
+
 def classify(case, o):
     """narrow classes used for known findings"""
     feats = features(case)
-    if o["kind"] == "state_differs" and guard_rewritten_under_itself(case):
+    if o["kind"] == "state_differs" and guard_rewritten_under_itself(case) and agrees_unmerged(case):
         return "merged_guard_reevaluated"
     if o["kind"] == "generation_error" and o["exception"] == "ValueError" and "NoneType" in o["message"] \
             and "pow" in feats:
@@ -1351,7 +1368,31 @@ def gen_cases(tier, seed):
     rng3 = random.Random(seed * 31 + 5)
     for n in range(4 if tier == "quick" else 40):
         out.append(alias_case(rng3))
+    # hand-written guards: builder programs whose flags are inlined (inline_guards); only guards that are plain
+    # comparisons / boolean combinations of variables and constants -- the Fortran target emits a guard verbatim,
+    # the rewriting passes that lower conditional expressions and calls visit statement expressions only
+    rng5 = random.Random(seed * 613 + 29)
+    want, tries = (10 if tier == "quick" else 80), 0
+    while want and tries < 2000:
+        tries += 1
+        c = PGen(rng5, {"ne", "zero_trip"}).case()
+        guards = [x[1] for ph in c["phases"] for x in ph["prog"] if x[0] == "if"]
+        # (and no guard that is itself a negation: its else branch would carry `not not X`, the open finding
+        # double_negation_not_fortran, which has its own corpus witness)
+        if guards and all(guard_plain(g) and g[0] != "not" for g in guards):
+            c["raw_guards"] = True
+            out.append(c)
+            want -= 1
     return out
+
+
+def guard_plain(e):
+    """no conditional expression and no call inside a guard"""
+    if isinstance(e, list):
+        if e and e[0] in ("if", "call"):
+            return False
+        return all(guard_plain(c) for c in e)
+    return True
 
 
 def corpus():
